@@ -51,7 +51,7 @@ def run(tier, seed):
                 it["cmp"] = "gt"
                 return k + 1
         return 0
-    seeds = [seed * 1000 + i for i in range(2 if quick else 10)]
+    seeds = [seed * 1000 + i for i in range(2 if quick else 30)]
     vlib.trace_rounds(c, "Trace_PrefixLaws", "prefixlaws", seeds, 3000 if quick else 20000, mut)
 
     c.cov["rule"] = ("cases = every pair of (max-length) prefixes x ASN pair, every constructor argument tuple, every pair of ASN multisets "
